@@ -192,8 +192,8 @@ Section FullFrame.
   Hypothesis Hrun : forall p s,
     (exists c r, forall b, run p s b = (if b <? c then Err CostExceeded else Ok (c, r))) \/
     (forall b, exists e, run p s b = Err e).
-  Hypothesis Hni : bf_interned fl = false.
   Notation RSB := (run_spendbundle vk H K run cpb fl).
+  Notation CORE := (rsb_core vk H K run fl).
   Notation sdata := (spend_data H run fl).
 
   Definition reported_full (LL : list ipair) (r : bundle * list spend * list (bytes * bytes)) : Prop :=
@@ -202,13 +202,13 @@ Section FullFrame.
     b_cond_cost (fst (fst r)) = total_cost cfl (parsed LL) /\
     b_exec_cost (fst (fst r)) = costs LL.
 
-  Theorem run_spendbundle_reported_full L max_cost r :
-    RSB L max_cost = Ok r -> exists LL, Forall2 sdata L LL /\ reported H K cpb fl LL L r /\ reported_full LL r.
+  Theorem rsb_core_reported_full base L max_cost r :
+    CORE base L max_cost = Ok r -> exists LL, Forall2 sdata L LL /\ reported_core H K fl base LL r /\ reported_full LL r.
   Proof.
     intros Hr.
-    destruct (run_spendbundle_reported vk H K run cpb fl Hrun Hni L max_cost r Hr) as (LL & F & Rp).
+    destruct (rsb_core_reported vk H K run fl Hrun base L max_cost r Hr) as (LL & F & Rp).
     exists LL. split; [exact F|]. split; [exact Rp|].
-    unfold run_spendbundle, calculate_base_cost, bind, subtract_cost in Hr. rewrite Hni in Hr.
+    unfold rsb_core, bind, subtract_cost in Hr.
     destruct (_ <? _); [discriminate|].
     destruct (f_limit_spends cfl && _); [discriminate|].
     destruct (sb_loop _ _ _ _ _ _ _ _ _) as [[[ret st] cl]|] eqn:Es; [|discriminate].
@@ -226,23 +226,36 @@ Section FullFrame.
     rewrite post_process_erase, fast_rev_rev, map_rev, I1. apply rev_involutive.
   Qed.
 
-  Theorem mempool_order_full L max_cost :
-    match RSB (rev L) max_cost, RSB L max_cost with
+  Theorem mempool_order_full_core base L max_cost :
+    match CORE base (rev L) max_cost, CORE base L max_cost with
     | Ok r', Ok r => full_eq r' r
     | Err _, Err _ => True
     | _, _ => False
     end.
   Proof.
-    pose proof (mempool_order vk H K run cpb fl Hrun Hni L max_cost) as O.
-    destruct (RSB L max_cost) as [r|e] eqn:E; destruct (RSB (rev L) max_cost) as [r'|e'] eqn:E'; try exact O.
-    destruct (run_spendbundle_reported_full _ _ _ E) as (LL & F & _ & (P1 & P2 & P3 & P4)).
-    destruct (run_spendbundle_reported_full _ _ _ E') as (LL' & F' & _ & (Q1 & Q2 & Q3 & Q4)).
+    pose proof (mempool_order_core vk H K run fl Hrun base L max_cost) as O.
+    destruct (CORE base L max_cost) as [r|e] eqn:E; destruct (CORE base (rev L) max_cost) as [r'|e'] eqn:E'; try exact O.
+    destruct (rsb_core_reported_full _ _ _ _ E) as (LL & F & _ & (P1 & P2 & P3 & P4)).
+    destruct (rsb_core_reported_full _ _ _ _ E') as (LL' & F' & _ & (Q1 & Q2 & Q3 & Q4)).
     assert (LL' = rev LL) by (eapply (Forall2_fun _ (spend_data_fun vk H run fl Hrun)); [exact F'|now apply Forall2_rev']). subst LL'.
     split; [exact O|]. rewrite Q1, Q2, Q3, Q4, P1, P2, P3, P4.
     destruct (totals_perm cfl _ _ (bundle_perm_rev (parsed LL))) as (T1 & _).
     rewrite parsed_rev, costs_rev, <- T1. repeat split.
     - apply map_rev.
     - unfold all_unsafe. apply flat_map_perm, Permutation_sym, Permutation_rev.
+  Qed.
+
+  Theorem mempool_order_full :
+    bf_interned fl = false -> forall L max_cost,
+    match RSB (rev L) max_cost, RSB L max_cost with
+    | Ok r', Ok r => full_eq r' r
+    | Err _, Err _ => True
+    | _, _ => False
+    end.
+  Proof.
+    intros Hni L max_cost.
+    rewrite (rsb_eq vk H K run cpb fl L max_cost Hni), (rsb_eq vk H K run cpb fl (rev L) max_cost Hni), (base_cost_rev cpb).
+    apply mempool_order_full_core.
   Qed.
 End FullFrame.
 
@@ -296,6 +309,59 @@ Section AgreeFull.
       now apply (Hcomb b m' m).
     - destruct (run_spendbundle valid_key H K run cpb fl (rev spends) max_cost) as [m'|];
       destruct (run_spendbundle valid_key H K run cpb fl spends max_cost) as [m|]; try contradiction.
+      + assert (Es : sig_ok (snd m') = sig_ok (snd m)) by (apply Hsig; destruct O as ((_ & _ & _ & _ & _ & _ & _ & _ & P) & _); exact P).
+        rewrite <- Es. destruct (sig_ok (snd m'));
+          destruct (run_block_generator2 _ _ _ _ _ _ _ _ _ _ _) as [b|]; try contradiction; try exact I.
+        now apply (Hcomb b m' m).
+      + exact A.
+  Qed.
+
+  (* INTERNED_GENERATOR: both paths charge the interned size of the same tree; the only difference is the quote's execution cost *)
+  Lemma mempool_path_interned spends g max_cost :
+    bf_interned fl = true -> build_generator spends = Some g ->
+    mempool_path valid_key H K run sig_ok cpb fl spends max_cost =
+    mempool_core valid_key H K run sig_ok fl (interned_vbytes g * cpb) spends max_cost.
+  Proof.
+    intros Hi Hg. unfold mempool_path, mempool_core, validate_clvm_and_signature.
+    rewrite run_spendbundle_core. unfold calculate_base_cost. rewrite Hi, Hg. reflexivity.
+  Qed.
+
+  Theorem agree_full_same_interned spends g program max_cost :
+    Forall (good_spend H) spends ->
+    bf_interned fl = true ->
+    N.of_nat (length spends) <= MAX_SPENDS_PER_BLOCK ->
+    build_generator spends = Some g -> ser g = Some program ->
+    match mempool_path valid_key H K run sig_ok cpb fl spends max_cost,
+          run_block_generator2 valid_key H K run sig_ok cpb fl gen_args program (nlen program) (max_cost + 20) with
+    | Ok m, Ok b => agree_full 20 b m
+    | Err _, Err _ => True
+    | _, _ => False
+    end.
+  Proof.
+    intros Hall Hi Hlim Hg Hser.
+    rewrite (mempool_path_interned spends g max_cost Hi Hg).
+    pose proof (agree_rev_interned valid_key H K run sig_ok cpb fl gen_args Hquote spends g program max_cost Hall Hi Hlim Hg Hser) as A.
+    set (base := interned_vbytes g * cpb) in *.
+    pose proof (mempool_order_full_core valid_key H K run fl Hrun base spends max_cost) as O.
+    assert (Hcomb : forall b m' m, same_summary 20 b m' -> full_eq m' m -> agree_full 20 b m).
+    { intros b m' m Hs (G & G10 & G11 & G12 & G13).
+      pose proof Hs as (S1 & S2 & S3 & S4 & S5).
+      destruct G as (G1 & G2 & G3 & G4 & G5 & G6 & G7 & G8 & G9).
+      destruct (erase_b_fields _ _ S1) as (_ & F2 & F3 & F4 & F5 & F6 & F7 & F8 & F11 & F12).
+      split; [|split; [|split; [|split]]].
+      - unfold agree_summary. rewrite S2, S5, F2, F3, F4, F6, F7, F11, F12, G1, G2, G3, G4, G5, G6, G7, G8. repeat split; auto.
+      - rewrite S4. exact G10.
+      - rewrite F5. exact G11.
+      - rewrite F8. exact G12.
+      - rewrite S3, G13. reflexivity. }
+    unfold mempool_core, check_signature, bind in *.
+    destruct (f_dont_validate (bf_cond fl)).
+    - destruct (rsb_core valid_key H K run fl base (rev spends) max_cost) as [m'|];
+      destruct (rsb_core valid_key H K run fl base spends max_cost) as [m|]; try contradiction;
+      destruct (run_block_generator2 _ _ _ _ _ _ _ _ _ _ _) as [b|]; try contradiction; try exact I.
+      now apply (Hcomb b m' m).
+    - destruct (rsb_core valid_key H K run fl base (rev spends) max_cost) as [m'|];
+      destruct (rsb_core valid_key H K run fl base spends max_cost) as [m|]; try contradiction.
       + assert (Es : sig_ok (snd m') = sig_ok (snd m)) by (apply Hsig; destruct O as ((_ & _ & _ & _ & _ & _ & _ & _ & P) & _); exact P).
         rewrite <- Es. destruct (sig_ok (snd m'));
           destruct (run_block_generator2 _ _ _ _ _ _ _ _ _ _ _) as [b|]; try contradiction; try exact I.
